@@ -248,6 +248,11 @@ nni_listener_init(nni_listener *l, nni_sock *s, nni_sp_tran *tran)
 		nni_mtx_lock(&listeners_lk);
 		rv = nni_id_alloc32(&listeners, &l->l_id, l);
 		nni_mtx_unlock(&listeners_lk);
+		if (rv != 0) {
+			// We have joined the socket already; undo that, as
+			// the caller is going to discard us.
+			nni_sock_remove_listener(l);
+		}
 	}
 
 	if (rv == 0) {
